@@ -9,6 +9,7 @@ import (
 	"io"
 	"os"
 	"os/exec"
+	"sync"
 )
 
 // GenesisForProfile selects the genesis configuration of a generator profile.
@@ -152,12 +153,55 @@ func ReplayOpt(path string, out io.Writer, restarts bool) int {
 // Twin replays `trace` with a restart after every operation (child process) and compares the
 // state after every step with the original run, ignoring the package variable itself.
 func Twin(self string, trace string, out io.Writer) int {
-	cmd := exec.Command(self, "-replay", trace, "-restarts")
-	cmd.Stderr = os.Stderr
-	b, err := cmd.Output()
-	if err != nil {
-		fmt.Fprintf(out, "TWIN-ERROR %v\n", err)
-		return 2
+	// one child process per history, in parallel: the trace is split at its genesis lines
+	var parts [][]byte
+	{
+		f, err := os.Open(trace)
+		if err != nil {
+			panic(err)
+		}
+		sc := bufio.NewScanner(f)
+		sc.Buffer(make([]byte, 1<<20), 1<<28)
+		for sc.Scan() {
+			line := sc.Bytes()
+			if bytes.HasPrefix(line, []byte(`{"genesis"`)) || len(parts) == 0 {
+				parts = append(parts, nil)
+			}
+			parts[len(parts)-1] = append(append(parts[len(parts)-1], line...), '\n')
+		}
+		f.Close()
+	}
+	outs := make([][]byte, len(parts))
+	errs := make([]error, len(parts))
+	var wg sync.WaitGroup
+	sem := make(chan struct{}, 16)
+	for i := range parts {
+		wg.Add(1)
+		go func(i int) {
+			defer wg.Done()
+			sem <- struct{}{}
+			defer func() { <-sem }()
+			tmp, err := os.CreateTemp("", "twin-part-*.jsonl")
+			if err != nil {
+				errs[i] = err
+				return
+			}
+			tmp.Write(parts[i])
+			tmp.Close()
+			defer os.Remove(tmp.Name())
+			cmd := exec.Command(self, "-replay", tmp.Name(), "-restarts")
+			cmd.Stderr = os.Stderr
+			outs[i], errs[i] = cmd.Output()
+		}(i)
+	}
+	wg.Wait()
+	var b []byte
+	var err error
+	for i := range parts {
+		if errs[i] != nil {
+			err = errs[i]
+		}
+		b = append(b, outs[i]...)
 	}
 	read := func(r io.Reader) [][]byte {
 		var ls [][]byte
